@@ -56,6 +56,7 @@ struct ExtraFd { int fd = -1; int kind = 0; bool cloexec = false; };  // kind 0 
 struct WorldSpec {
   simk::World k;
   int low_fds = 7;          // bit i: caller's descriptor i is open
+  int sigpipe = 0;          // caller's SIGPIPE disposition: 0 ignored (what the README asks for), 1 default, 2 a handler (plans without writes only)
   std::vector<ExtraFd> extra;
   int cwd_depth = 1;        // number of components below /
   int cwd_comp = 4;         // component length
